@@ -18,10 +18,13 @@ func Go(fn func()) {
 type Buffer []byte
 
 func GetBuf(size int) Buffer {
-	return bytespool.Get(size)
+	return getHook(bytespool.Get(size))
 }
 
 func ReleaseBuf(b Buffer) {
+	if releaseHook(b) {
+		return
+	}
 	bytespool.Release(b)
 }
 
